@@ -99,7 +99,8 @@ theorem sum_subst_ne {a b : Bytes} {x y : Nat} (hx : x < 256) (hy : y < 256) (hx
   rw [sum_append, sum_append, sum_cons, sum_cons]
   omega
 
-/-- the CheckSum statement in the form "frame = pre ++ SOH 10= v ++ tail" -/
+/-- the CheckSum statement in the form "frame = pre ++ SOH 10= v ++ tail"; since the decoder waits
+for the SOH that terminates the CheckSum field, `tail` is in fact always `[SOH]` (`decode_checksum_soh`) -/
 theorem decode_checksum' {bs : Bytes} {tbl : Tbl} {raw : Bytes} {m : Msg} {n : Nat} {enc : Bytes}
     (h : decode bs tbl raw = .msg m n enc) :
     ∃ pre v tail, enc = pre ++ SOH :: (ck3 ++ v) ++ tail ∧ (tail = [] ∨ tail = [SOH]) ∧ SOH ∉ v ∧
@@ -109,6 +110,20 @@ theorem decode_checksum' {bs : Bytes} {tbl : Tbl} {raw : Bytes} {m : Msg} {n : N
   rcases henc with h0 | h0
   · exact ⟨join SOH F, v, [], by rw [List.append_nil]; exact h0, Or.inl rfl, hv, hpy, by rw [hd]⟩
   · exact ⟨join SOH F, v, [SOH], h0, Or.inr rfl, hv, hpy, by rw [hd]⟩
+
+/-- **every returned frame is `pre ++ SOH "10=" ddd SOH`** with `ddd` the three-digit byte sum -/
+theorem decode_checksum_soh {bs : Bytes} {tbl : Tbl} {raw : Bytes} {m : Msg} {n : Nat} {enc : Bytes}
+    (h : decode bs tbl raw = .msg m n enc) :
+    ∃ pre v, enc = pre ++ SOH :: (ck3 ++ v) ++ [SOH] ∧
+      ckParse v = some ((sum pre + 1) % 256) ∧ pre = join SOH (fieldsOf enc).dropLast := by
+  obtain ⟨pre, v, tail, he, ht, hv, hp, hpre⟩ := decode_checksum' h
+  rcases ht with rfl | rfl
+  · exfalso
+    rw [List.append_nil] at he
+    obtain ⟨x, hx⟩ := decode_msg_ends_soh h (a := pre) (b := v) (by rw [he, cksumPat_eq]; simp)
+    rw [he] at hx
+    exact not_end_with_sep (by simp [ck3]) (ckfield_noSep hv) hx
+  · exact ⟨pre, v, he, hp, hpre⟩
 
 /-- what `decode` parses when the buffer starts with a frame-shaped piece -/
 theorem cut_of_frame {pre v rest : Bytes} (hck : findSub cksumPat (pre ++ cksumPat) = some pre.length)
@@ -158,6 +173,12 @@ theorem mismatching_frame_rejected (bs : Bytes) (tbl : Tbl) {pre v : Bytes}
     rw [hr]; simp only [List.append_assoc]; exact isPrefix_append _ _
   rw [findSub_zero_of_prefix (by simp [cksumPat]) hpre] at h'
   simp only [List.drop_zero] at h'
+  have hnopen : ckOpen (pre ++ cksumPat ++ v ++ SOH :: rest) = false := by
+    unfold ckOpen
+    rw [(cut_of_frame (rest := rest) hck hv).1]
+    simp
+  rw [hnopen] at h'
+  simp only [Bool.false_eq_true, if_false] at h'
   obtain ⟨_, _, _, _, _, _, _, _, _, _, _, _, _, _, _, _, _, _, he⟩ := decodeFields_msg h'
   rw [(cut_of_frame hck hv).2] at he
   obtain ⟨p2, v2, t2, henc, ht2, hv2, hpy, _⟩ := decode_checksum' h
